@@ -1,10 +1,11 @@
 (* process.go, usermacros.go (call), macros.go (If, processInlineMacros): the block loop.
-   [step pb] dispatches one block; re-entrant calls (user macro bodies, included files, inline
-   processing of titles) go through [pb], "the loop with less nesting fuel".  [walk] is the
-   structural walk over a block list; fuel bounds nesting depth only. *)
+   [step pb] dispatches one block on the pair (control state, rendering state); re-entrant calls (user macro
+   bodies, included files) go through [pb], "the loop with less nesting fuel".  [walk] is the structural walk
+   over a block list; fuel bounds nesting depth only.  Inline processing of titles ([pim]) is first-order:
+   its blocks are text, Bm, Em and Sm only, always dispatched to the builtin handlers. *)
 From Coq Require Import List NArith ZArith Bool Lia Arith String.
 Import ListNotations.
-Require Import Exp Proc1 Proc2 Proc3 Xhtml.
+Require Import Exp Proc1 Proc2 Proc3 Xhtml Ctl.
 Require PathClean.
 Open Scope N_scope.
 
@@ -12,24 +13,32 @@ Definition is_name (n : str) (m : string) : bool := str_eqb n (runes m).
 Definition max_macro_expansions : nat := (100 * 100)%nat.
 Definition max_macro_args_size : nat := (100 * 100)%nat.
 Definition args_size (a : list arg) : nat := fold_left (fun n x => (n + List.length x)%nat) a 0%nat.
-Definition out_of_fuel (s : st) : st := s <| panicked := Some (R "out of fuel") |>.
+Definition out_of_fuel (cs : cst) : cst := (fst cs, (snd cs) <| panicked := Some (R "out of fuel") |>).
 
 Open Scope string_scope.
 Definition specOptIncludeFile := sp [("f", true); ("ns", false); ("as-is", false); ("t", true)].
 Close Scope string_scope.
 
-(* SearchIncFile: the name itself, else the first FRUNDISLIB directory that has it *)
-(* the world's files are keyed by clean paths; os.Stat / os.ReadFile resolve . and .. segments *)
-Definition fs_get (p : str) (s : st) : option str := assoc (PathClean.clean p) (fs s).
-Definition is_file (p : str) (s : st) : bool := match fs_get p s with Some _ => true | None => false end.
-Definition search_inc_file (name : str) (s : st) : str * bool :=
-  if is_file name s then (name, true) else
-  match find (fun d => is_file (PathClean.join [d; name]) s) (libdirs s) with
-  | Some d => (PathClean.join [d; name], true)
-  | None => (name, false)
+(* ---- what processBlock does around a handler ---- *)
+Definition set_regs (b : block) (s : st) : st :=
+  match b with
+  | BMacro n a l => s <| args := a |> <| macro := n |> <| line := l |> <| has_cur := true |>
+  | BText t l => s <| text := t |> <| line := l |> <| has_cur := true |>
   end.
+Definition bf_check (n : str) (s0 : st) : st :=
+  match bf s0 with
+  | Some _ => if is_name n "Ef" || is_name n "#if" || is_name n "#;" then s0 else err "found macro while Bf isn't closed" s0
+  | None => s0 end.
+Definition is_control_name (n : str) : bool :=
+  is_name n "#de" || is_name n "#." || is_name n "#if" || is_name n "#;" || is_name n "#dv" || is_name n "X".
+Definition after_handler (n : str) (s1 : st) : st :=
+  if elided s1 then s1 <| elided := false |> else if is_control_name n then s1 else s1 <| prev := n |>.
+Definition text_block (s0 : st) : st :=
+  let s1 := process_text s0 in
+  match bf s1 with Some b => if bf_ignore b then s1 else s1 <| prev := [] |> | None => s1 <| prev := [] |> end.
+Definition unknown_macro (n : str) (s0 : st) : st := match n with [] => s0 | _ => if process s0 then err "unknown macro" s0 else s0 end.
 
-(* processInlineMacros: arguments regrouped into blocks *)
+(* ---- processInlineMacros ---- *)
 Definition inline_blocks (a : list arg) (ln : nat) : list block :=
   let blocks :=
     fold_left (fun bl (x : arg) =>
@@ -48,66 +57,94 @@ Definition inline_blocks (a : list arg) (ln : nat) : list block :=
              end
       end) a [] in
   match blocks with [] => [BText [] ln] | _ => blocks end.
-
-Definition pim_of (pb : list block -> st -> st) : PIM := fun (a : list arg) (s : st) =>
+Definition inline_builtin (n : str) : option (st -> st) :=
+  if is_name n "Bm" then Some macro_bm else if is_name n "Em" then Some macro_em else if is_name n "Sm" then Some macro_sm else None.
+Definition inline_step (b : block) (s : st) : st :=
+  let s0 := set_regs b s in
+  match b with
+  | BText _ _ => text_block s0
+  | BMacro n _ _ => match inline_builtin n with
+                    | Some h => after_handler n (h (bf_check n s0))
+                    | None => unknown_macro n s0
+                    end
+  end.
+Fixpoint inline_walk (bs : list block) (s : st) : st :=
+  match bs with
+  | [] => s
+  | b :: rest => let s1 := inline_step b s in match panicked s1 with Some _ => s1 | None => inline_walk rest s1 end
+  end.
+Definition pim : PIM := fun (a : list arg) (s : st) =>
   let blocks := inline_blocks a (line s) in
   let s1 := (if negb (process s) then s <| quiet := true |> else s)
               <| buf := [] |> <| ws := false |> <| inl := true |> <| par := true |> <| process := true |> <| has_cur := true |> <| sinline := [] |> in
-  let s2 := pb blocks s1 in
+  let s2 := inline_walk blocks s1 in
   let s3 := close_unclosed_inline s2 in
   (flat (buf s3), s3 <| buf := buf s |> <| macro := macro s |> <| args := args s |> <| ws := ws s |> <| inl := false |>
               <| par := par s |> <| process := process s |> <| quiet := false |> <| has_cur := has_cur s |> <| line := line s3 |> <| sinline := sinline s |>).
 
+(* SearchIncFile: the name itself, else the first FRUNDISLIB directory that has it *)
+Definition search_inc_file (name : str) (c : ctl) : str * bool :=
+  if is_file name c then (name, true) else
+  match find (fun d => is_file (PathClean.join [d; name]) c) (libdirs c) with
+  | Some d => (PathClean.join [d; name], true)
+  | None => (name, false)
+  end.
+
 (* macroIncludeFile *)
-Definition macro_include (pb : list block -> st -> st) (s : st) : st :=
+Definition macro_include (pb : list block -> cst -> cst) (cs : cst) : cst :=
+  let '(c, s) := cs in
   let '(o, s1) := parse_opts specOptIncludeFile (args s) s in
   let '(skip, s2) := match opt "f" o with
                      | Some f => let '(fs, s') := formats_of f s1 in
                                  let s'' := if process s' then check_formats fs s' else s' in (not_export_format fs s'', s'')
                      | None => (false, s1) end in
-  if skip then s2 <| elided := true |> else
+  if skip then (c, s2 <| elided := true |>) else
   match po_args o with
-  | [] => if process s2 then err "filename argument required" s2 else s2
+  | [] => (c, if process s2 then err "filename argument required" s2 else s2)
   | a0 :: _ =>
     let '(name, s3) := inlines_text a0 s2 in
     if flag "as-is" o then
-      if negb (process s3) then s3 else
+      if negb (process s3) then (c, s3) else
       let s4 := if par s3 then (begin_phrasing (flag "ns" o) s3) <| ws := true |> else s3 in
-      match fs_get name s4 with
-      | None => err "as-is inclusion: no such file" s4
+      match fs_get name c with
+      | None => (c, err "as-is inclusion: no such file" s4)
       | Some src =>
-        let '(t, s5) := match opt "t" o with
-                        | Some tg => let '(tag, s') := inlines_text tg s4 in
-                                     if str_eqb tag (R "escape") then (escape_fn s' src, s') else (src, err "unknown tag" s')
-                        | None => (src, s4) end in
-        w t s5
+        let '(t, (c5, s5)) := match opt "t" o with
+                              | Some tg => let '(tag, s') := inlines_text tg s4 in
+                                           match apply_filter tag src (c, s') with
+                                           | Some r => r
+                                           | None => (src, (c, err "unknown tag" s'))
+                                           end
+                              | None => (src, (c, s4)) end in
+        (c5, w t s5)
       end
     else
-      let '(path, found) := search_inc_file name s3 in
-      if negb found then (if process s3 then err "no such frundis source file" s3 else s3) else
-      if existsb (str_eqb (PathClean.clean path)) (incstack s3) then (if process s3 then err "recursive inclusion" s3 else s3) else
-      match fs_get path s3 with
-      | None => s3
+      let '(path, found) := search_inc_file name c in
+      if negb found then (c, if process s3 then err "no such frundis source file" s3 else s3) else
+      if existsb (str_eqb (PathClean.clean path)) (incstack c) then (c, if process s3 then err "recursive inclusion" s3 else s3) else
+      match fs_get path c with
+      | None => (c, s3)
       | Some src =>
         let '(bs, e) := parse src in
         match e with
-        | Some _ => err "parse error" s3
+        | Some _ => (c, err "parse error" s3)
         | None =>
-          let s4 := s3 <| cfile := path |> <| incstack ::= fun l => l ++ [PathClean.clean path] |> <| has_cur := (match bs with [] => false | _ => true end) |> in
-          let s5 := pb bs s4 in
-          s5 <| cfile := cfile s3 |> <| incstack := incstack s3 |> <| has_cur := has_cur s3 |>
+          let s4 := s3 <| cfile := path |> <| has_cur := (match bs with [] => false | _ => true end) |> in
+          let '(c5, s5) := pb bs (set_incstack (incstack c ++ [PathClean.clean path]) c, s4) in
+          (set_incstack (incstack c) c5, s5 <| cfile := cfile s3 |> <| has_cur := has_cur s3 |>)
         end
       end
   end.
 
 (* processUserMacro *)
-Definition user_macro (pb : list block -> st -> st) (m : umdef) (n : str) (l : nat) (s0 : st) : st :=
-  if Nat.ltb 42 (cdepth s0) then (if process s0 then err "recursive macro: too much depth" s0 else s0) else
-  if Nat.leb max_macro_expansions (xcount s0) then
-    (if process s0 && negb (xexh s0) then err "recursive macro: too many expansions" s0 else s0) <| xexh := true |>
+Definition user_macro (pb : list block -> cst -> cst) (m : umdef) (n : str) (l : nat) (cs : cst) : cst :=
+  let '(c, s0) := cs in
+  if Nat.ltb 42 (cdepth s0) then (c, if process s0 then err "recursive macro: too much depth" s0 else s0) else
+  if Nat.leb max_macro_expansions (xcount c) then
+    (set_budget (xcount c) true c, if process s0 && negb (xexh c) then err "recursive macro: too many expansions" s0 else s0)
   else
-  let s0 := s0 <| xcount ::= S |> in
-  if Nat.ltb max_macro_args_size (args_size (args s0)) then (if process s0 then err "recursive macro: arguments too large" s0 else s0) else
+  let c := set_budget (S (xcount c)) (xexh c) c in
+  if Nat.ltb max_macro_args_size (args_size (args s0)) then (c, if process s0 then err "recursive macro: arguments too large" s0 else s0) else
   let sq := if negb (process s0) then s0 <| quiet := true |> else s0 in
   let '(o, sa) := parse_opts (um_opts m) (args sq) sq in
   let sb := if negb (process sa) then sa <| quiet := false |> else sa in
@@ -118,19 +155,18 @@ Definition user_macro (pb : list block -> st -> st) (m : umdef) (n : str) (l : n
                 (um_blocks m) ([], sc)
     else (um_blocks m, sc) in
   let se := if Nat.eqb (cdepth sd) 0 then sd <| cloc := Some (l, n, cfile sd) |> else sd in
-  let sf := pb blocks (se <| cdepth ::= S |> <| has_cur := true |> <| cfile := um_file m |>) in
+  let '(cf, sf) := pb blocks (c, se <| cdepth ::= S |> <| has_cur := true |> <| cfile := um_file m |>) in
   let sg := sf <| cdepth ::= Nat.pred |> <| has_cur := has_cur s0 |> <| cfile := cfile s0 |> in
-  if Nat.eqb (cdepth sg) 0 then sg <| cloc := None |> <| xcount := 0%nat |> <| xexh := false |> else sg.
+  if Nat.eqb (cdepth sg) 0 then (set_budget 0 false cf, sg <| cloc := None |>) else (cf, sg).
 
-Definition builtin (pb : list block -> st -> st) (n : str) : option (st -> st) :=
-  let pim := pim_of pb in
+(* the rendering and declaration macros: functions of the rendering state alone *)
+Definition builtin (n : str) : option (st -> st) :=
   if is_name n "Bd" then Some macro_bd else if is_name n "Bf" then Some macro_bf
   else if is_name n "Bl" then Some (macro_bl pim) else if is_name n "Bm" then Some macro_bm
   else if is_name n "Ch" || is_name n "Pt" || is_name n "Sh" || is_name n "Ss" then Some (macro_header pim)
   else if is_name n "D" then Some macro_d else if is_name n "Ed" then Some macro_ed
-  else if is_name n "Ef" then Some macro_ef else if is_name n "El" then Some macro_el
-  else if is_name n "Em" then Some macro_em else if is_name n "Ft" then Some macro_ft
-  else if is_name n "If" then Some (macro_include pb)
+  else if is_name n "El" then Some macro_el
+  else if is_name n "Em" then Some macro_em
   else if is_name n "Im" then Some macro_im else if is_name n "It" then Some (macro_it pim)
   else if is_name n "Lk" then Some (macro_lk pim) else if is_name n "P" then Some (macro_p pim)
   else if is_name n "Sm" then Some macro_sm else if is_name n "Sx" then Some (macro_sx pim)
@@ -140,61 +176,60 @@ Definition builtin (pb : list block -> st -> st) (n : str) : option (st -> st) :
   else if is_name n "#if" then Some macro_if_start else if is_name n "#;" then Some macro_if_end
   else if is_name n "#dv" then Some macro_def_var
   else None.
+(* the four macros that see the control state *)
+Definition control_builtin (pb : list block -> cst -> cst) (n : str) : option (cst -> cst) :=
+  if is_name n "Ef" then Some macro_ef else if is_name n "Ft" then Some macro_ft
+  else if is_name n "If" then Some (macro_include pb) else if is_name n "#run" then Some macro_run
+  else None.
 
 (* processBlock *)
-Definition step (pb : list block -> st -> st) (b : block) (s : st) : st :=
-  let s0 := match b with
-            | BMacro n a l => s <| args := a |> <| macro := n |> <| line := l |> <| has_cur := true |>
-            | BText t l => s <| text := t |> <| line := l |> <| has_cur := true |>
-            end in
+Definition step (pb : list block -> cst -> cst) (b : block) (cs : cst) : cst :=
+  let '(c, s) := cs in
+  let s0 := set_regs b s in
   if Nat.ltb 0 (ifdepth s0) then
-    match b with
-    | BMacro n _ _ => if is_name n "#;" then macro_if_end s0 else if is_name n "#if" then macro_if_start s0 else s0
-    | _ => s0
-    end
+    (c, match b with
+        | BMacro n _ _ => if is_name n "#;" then macro_if_end s0 else if is_name n "#if" then macro_if_start s0 else s0
+        | _ => s0
+        end)
   else match udef s0 with
   | Some d =>
     let record := s0 <| udef := Some (mkUm (um_line d) (um_name d) (um_ignore d) 0 [] (um_blocks d ++ [b]) false (um_file d)) |> in
-    match b with
-    | BMacro n _ _ =>
-        if is_name n "#." then macro_def_end s0
-        else if is_name n "#de" then macro_def_start s0
-        else if um_ignore d then s0 else record
-    | BText _ _ => if um_ignore d then s0 else record
-    end
+    (c, match b with
+        | BMacro n _ _ =>
+            if is_name n "#." then macro_def_end s0
+            else if is_name n "#de" then macro_def_start s0
+            else if um_ignore d then s0 else record
+        | BText _ _ => if um_ignore d then s0 else record
+        end)
   | None =>
     match b with
-    | BText _ _ => let s1 := process_text s0 in
-                   match bf s1 with Some b => if bf_ignore b then s1 else s1 <| prev := [] |> | None => s1 <| prev := [] |> end
+    | BText _ _ => (c, text_block s0)
     | BMacro n a l =>
       match (if inl s0 then None else assoc n (umacros s0)) with
-      | Some m => user_macro pb m n l s0
+      | Some m => user_macro pb m n l (c, s0)
       | None =>
-        match builtin pb n with
-        | Some h =>
-          let sx := match bf s0 with
-                    | Some _ => if is_name n "Ef" || is_name n "#if" || is_name n "#;" then s0 else err "found macro while Bf isn't closed" s0
-                    | None => s0 end in
-          let s1 := h sx in
-          if elided s1 then s1 <| elided := false |> else
-          if is_name n "#de" || is_name n "#." || is_name n "#if" || is_name n "#;" || is_name n "#dv" || is_name n "X" then s1
-          else s1 <| prev := n |>
-        | None => match n with [] => s0 | _ => if process s0 then err "unknown macro" s0 else s0 end
+        match control_builtin pb n with
+        | Some h => let '(c1, s1) := h (c, bf_check n s0) in (c1, after_handler n s1)
+        | None =>
+          match builtin n with
+          | Some h => (c, after_handler n (h (bf_check n s0)))
+          | None => (c, unknown_macro n s0)
+          end
         end
       end
     end
   end.
 
-Definition walk (pb : list block -> st -> st) : list block -> st -> st :=
-  fix loop (bs : list block) (s : st) : st :=
+Definition walk (pb : list block -> cst -> cst) : list block -> cst -> cst :=
+  fix loop (bs : list block) (cs : cst) : cst :=
     match bs with
-    | [] => s
-    | b :: rest => let s1 := step pb b s in match panicked s1 with Some _ => s1 | None => loop rest s1 end
+    | [] => cs
+    | b :: rest => let cs1 := step pb b cs in match panicked (snd cs1) with Some _ => cs1 | None => loop rest cs1 end
     end.
 
-Fixpoint run_blocks (depth : nat) : list block -> st -> st :=
+Fixpoint run_blocks (depth : nat) : list block -> cst -> cst :=
   match depth with
-  | O => fun _ s => out_of_fuel s
+  | O => fun _ cs => out_of_fuel cs
   | S d => walk (run_blocks d)
   end.
 
@@ -204,11 +239,11 @@ Definition init_st : st :=
        (mkToc false false 0 0 0 0 0 0 0 0 0) [] [] [] [] [] [] []
        0 0 0 0 [] [] false false [] 0 false 0 [] []
        [(R "xhtml-index", R "full"); (R "lang", R "en")] [] []
-       0 None [] [] 0 None 0 false [] [] false false (R "xhtml") [] false false 0%Z [] [] [] false [] 0 [] [] [] [] None.
+       0 None [] [] 0 None [] false false (R "xhtml") [] false false 0%Z [] [] [] 0 [] [] [] [] None.
 
 Definition reset (s : st) : st :=
-  init_st <| format := format s |> <| existing := existing s |> <| fs := fs s |> <| libdirs := libdirs s |> <| unrestricted := unrestricted s |> <| urls := urls s |>
-          <| cfile := cfile s |> <| incstack := incstack s |>
+  init_st <| format := format s |> <| existing := existing s |> <| urls := urls s |> <| filters := filters s |>
+          <| cfile := cfile s |>
           <| mode := mode s |> <| dtags := dtags s |> <| ids := ids s |> <| images := images s |> <| mtags := mtags s |> <| params := params s |>
           <| lox_toc := lox_toc s |> <| lox_nav := lox_nav s |> <| lox_lof := lox_lof s |> <| lox_lot := lox_lot s |> <| lox_lop := lox_lop s |>
           <| toc := reset_counters (toc s) |> <| tinfo := tinfo s |> <| diags := diags s |> <| process := true |>.
@@ -246,28 +281,33 @@ Definition eof_sweep (s2 : st) : st :=
   let s6 := match bf s5 with Some _ => err "found End Of File while Bf isn't closed" s5 | None => s5 end in
   match udef s6 with Some _ => err "found End Of File while #de isn't closed" s6 | None => s6 end.
 
+Definition start_ctl (wd : world) (main : str) : ctl :=
+  mkCtl (w_unrestricted wd) [] 0 false [PathClean.clean main] (w_fs wd) (w_libdirs wd).
 Definition start_st (fmtname : str) (md : nat) (wd : world) (main : str) : st :=
-  init_st <| format := fmtname |> <| mode := md |> <| existing := w_existing wd |> <| fs := w_fs wd |> <| libdirs := w_libdirs wd |>
-          <| unrestricted := w_unrestricted wd |> <| urls := w_urls wd |> <| cfile := main |> <| incstack := [PathClean.clean main] |>
+  init_st <| format := fmtname |> <| mode := md |> <| existing := w_existing wd |> <| urls := w_urls wd |> <| cfile := main |>
           <| params := (if str_eqb fmtname (R "xhtml") || str_eqb fmtname (R "epub") then [(R "xhtml-index", R "full"); (R "lang", R "en")] else [(R "lang", R "en")]) |>.
 
-Definition compile (fuel : nat) (fmtname : str) (md : nat) (wd : world) (main : str) (bs : list block) : st :=
-  let s1 := run_blocks fuel bs (start_st fmtname md wd main) in
-  match panicked s1 with Some _ => s1 | None =>
-  let s2 := run_blocks fuel bs (exp_reset (reset s1)) in
-  match panicked s2 with Some _ => s2 | None =>
+(* the result: rendering state at the end, and the control state (with the log of commands started) *)
+Definition compile (fuel : nat) (fmtname : str) (md : nat) (wd : world) (main : str) (bs : list block) : cst :=
+  let '(c1, s1) := run_blocks fuel bs (start_ctl wd main, start_st fmtname md wd main) in
+  match panicked s1 with Some _ => (c1, s1) | None =>
+  let '(c2, s2) := run_blocks fuel bs (set_budget 0 false c1, exp_reset (reset s1)) in
+  match panicked s2 with Some _ => (c2, s2) | None =>
   let s8 := exp_post (eof_sweep s2) in
-  s8 <| files ::= fun l => l ++ [(curfile s8, flat (wout s8))] |>
+  (c2, s8 <| files ::= fun l => l ++ [(curfile s8, flat (wout s8))] |>)
   end end.
 
 (* main is the path of the main source in the world's file system *)
-Definition compile_source (fmtname : str) (md : nat) (wd : world) (main : str) : st :=
+Definition compile_source_c (fmtname : str) (md : nat) (wd : world) (main : str) : cst :=
+  let c0 := start_ctl wd main in
   match assoc main (w_fs wd) with
-  | None => init_st <| panicked := Some (R "no such file") |>
+  | None => (c0, init_st <| panicked := Some (R "no such file") |>)
   | Some src =>
     let '(bs, e) := parse src in
     match e with
-    | Some _ => init_st <| panicked := Some (R "parse error") |>
+    | Some _ => (c0, init_st <| panicked := Some (R "parse error") |>)
     | None => compile (nesting_fuel wd) fmtname md wd main bs
     end
   end.
+Definition compile_source (fmtname : str) (md : nat) (wd : world) (main : str) : st := snd (compile_source_c fmtname md wd main).
+Definition commands_started (fmtname : str) (md : nat) (wd : world) (main : str) : list (list str) := rev (execs (fst (compile_source_c fmtname md wd main))).
